@@ -102,8 +102,17 @@ def run(ck):
                 ck.count('names longer than 250')
             inp = os.path.join(tmp, 'a%d.fa' % k)
             open(inp, 'w').write(gen.fasta(names, rows, rng.choice([60, 60, 13, 1000])))
+            # the MSF header line carries the base name of the output file: names near and beyond the 256-byte line buffer
+            # of the writer (NAME_MAX is 255) must not cut the declared length, type or checksum off
+            stem = 'i%d' % k
+            if k % 9 == 5:
+                stem = 'i%d_' % k + gen.rand_seq(rng, 'abcdefghijklmnopqrstuvwxyz0123456789_', rng.choice([150, 180, 186, 200, 230, 242]))
+                ck.count('output file names of 150..245 bytes')
             for fmt in ('fasta', 'msf', 'clu'):
-                oi = os.path.join(tmp, 'i%d.%s' % (k, fmt)); om = os.path.join(tmp, 'm%d.%s' % (k, fmt))
+                oi = os.path.join(tmp, '%s.%s' % (stem, fmt)); om = os.path.join(tmp, 'm%d.%s' % (k, fmt))
+                if k % 4 == 2:      # the output path already holds a longer file (an earlier, larger alignment): it must be replaced, not overlaid
+                    open(oi, 'w').write(('>old%d\n' % k + 'ACDEFGHIKLMNPQRSTVWY' * 3 + '\n') * 4000)
+                    ck.count('output path holds a longer file before the write')
                 ilines.append('rewrite %s %s %s' % (inp, fmt, oi))
                 mlines.append('rewrite %s %s %s %s %s' % (inp, fmt, om, gen.hexs(os.path.basename(oi)), gen.hexs(ver)))
                 meta.append((kind, names, rows, fmt, oi, om))
